@@ -26,6 +26,7 @@ func (w *World) VerifyFunction(fn *ssa.Function, opts VerifyOpts) (res *FuncResu
 	ex.Props = opts.Props
 	ex.Safety = opts.Safety
 	ex.FrameChk = opts.Frame
+	ex.OnlyKinds = opts.OnlyKinds
 	ex.LevelChk = opts.Level
 	if opts.MaxPaths > 0 {
 		ex.MaxPaths = opts.MaxPaths
@@ -165,6 +166,7 @@ type VerifyOpts struct {
 	MaxPaths      int
 	Contract      *Contract // override (uniform contracts for sweeps)
 	NameOverride  string
+	OnlyKinds     map[string]bool
 	ExtraRequires func(ex *Ex, fr *Frame, st *State) []*T
 	ExtraPosts    func(ex *Ex, fr *Frame, st *State, results []SV) []NamedGoal
 }
